@@ -60,7 +60,7 @@ static int thorough;
 static int g_dump;                       /* replay: dump certificates / names to stderr */
 static EVP_PKEY *g_key[3];               /* 0 = RSA-2048, 1 = P-256, 2 = RSA-1024 */
 static const char keyletter[3] = { 'r', 'p', 's' };
-static int refused[NEXP];                /* psX509ValidateGeneralName(E) < 0 */
+static int refused[NEXP + 1];               /* psX509ValidateGeneralName(E) < 0 */
 
 typedef struct {
     long certs, certs_refused, evals, libcalls, definite, dontcare, accepts, viol_a, viol_b, refused_names, groups;
@@ -624,6 +624,178 @@ static void run_sanity(int record, mx_result_t *last)
     }
 }
 
+
+/* ------------------------------------------------------------------ part S: byte-substitution neighbourhood
+ * For a few base (certificate name, expected name) pairs that match, EVERY single-byte substitution of the certificate
+ * name (all 256 values at every position; name as subjectAltName entry of its kind, or as the only subject CN) and of
+ * the expected name (255 values at every position) is evaluated under every (nameType, mFlags) combination and compared
+ * with the reference matcher: the complete radius-1 neighbourhood of a match, which decides "case-insensitive EXACT
+ * match" for every byte value (letters of the other case are the only substitutions that may still match; a '*' may
+ * turn a one-character label into a legal wildcard - the reference knows). */
+typedef struct { int kind; const char *cert; int certlen; const char *exp; const char *tag; } sbase_t;
+static const sbase_t SB[] = {
+    { K_DNS, "www.example.com", 15, "www.example.com", "dns" },
+    { K_DNS, "a-1.example.com", 15, "a-1.example.com", "dns-hyphen-digit" },
+    { K_EMAIL, "user@example.com", 16, "user@example.com", "email" },
+    { K_DNS, "*.example.com", 13, "www.example.com", "dns-wild" },
+    { K_IP, "\xc0\xa8\x01\x01", 4, "192.168.1.1", "ip4" },
+    { K_DNS, "x_9.Example.com", 15, "X_9.example.COM", "dns-mixed-case" },
+};
+#define NSB ((int) (sizeof(SB) / sizeof(SB[0])))
+typedef struct { int b, dir, pl, pos; } sgroup_t;
+static sgroup_t sgroups[NSB * 2 * 2 * 20];
+static long nsgroups;
+
+static void s_names(const sgroup_t *sg, int x, names_t *N)
+{
+    const sbase_t *B = &SB[sg->b];
+    int sub = sg->dir == 0;
+    memset(N, 0, sizeof(*N));
+    snprintf(dyn_exp, sizeof(dyn_exp), "%s", B->exp);
+    if (sg->dir == 1) dyn_exp[sg->pos] = (char) x;
+    if (sg->pl == 0)
+    {
+        memcpy(dyn_san, B->cert, (size_t) B->certlen);
+        if (sub) dyn_san[sg->pos] = (char) x;
+        POOL[DYN_SAN].kind = B->kind;
+        POOL[DYN_SAN].len = B->certlen;
+        N->n = 1; N->idx[0] = DYN_SAN; N->cn = 0;
+    }
+    else
+    {
+        memcpy(dyn_cn, B->cert, (size_t) B->certlen);
+        if (sub) dyn_cn[sg->pos] = (char) x;
+        CNS[DYN_CN].len = B->certlen;
+        N->n = 0; N->cn = DYN_CN;
+    }
+    refused[DYN_EXP] = psX509ValidateGeneralName(dyn_exp) < 0;
+}
+
+static void s_desc(char *out, size_t n, const sgroup_t *sg, int x, int ci)
+{
+    const sbase_t *B = &SB[sg->b];
+    char a[80], e[80];
+    if (B->kind == K_IP && sg->pl == 0) snprintf(a, sizeof(a), "%02x%02x%02x%02x", (unsigned char) dyn_san[0], (unsigned char) dyn_san[1], (unsigned char) dyn_san[2], (unsigned char) dyn_san[3]);
+    else show_bytes(a, sizeof(a), sg->pl ? dyn_cn : dyn_san, B->certlen);
+    show_bytes(e, sizeof(e), dyn_exp, (int) strlen(dyn_exp));
+    snprintf(out, n, "S;b=%d;d=%d;pl=%d;i=%d;x=%d;t=%d;m=%u (%s %s=%s expected=%s type=%s: byte %d of the %s name replaced by 0x%02x)", sg->b, sg->dir, sg->pl, sg->pos, x,
+        ci < 0 ? -1 : COMBO[ci].type, ci < 0 ? 0 : COMBO[ci].mflags, B->tag, sg->pl ? "CN" : kind_name[B->kind], a, e, ci < 0 ? "all" : COMBO[ci].name, sg->pos, sg->dir ? "expected" : "certificate", x);
+}
+
+/* ci_only/x_only >= 0: replay of one evaluation */
+static void run_sgroup(const sgroup_t *sg, int record, int x_only, int ci_only, mx_result_t *last)
+{
+    const sbase_t *B = &SB[sg->b];
+    mcert_t c;
+    mx_result_t r;
+    names_t N;
+    int x, ci, key = g_key[2] ? 2 : 0, have = 0, nacc = 0, nrefused = 0;
+    long evals = 0, definite = 0;
+    uint64_t th = FNV0;
+    memset(&c, 0, sizeof(c));
+    for (x = sg->dir ? 1 : 0; x < 256; x++)
+    {
+        if (x_only >= 0 && x != x_only) continue;
+        if (record && mx_deadline_hit()) break;
+        s_names(sg, x, &N);
+        if (sg->dir == 0 || !have)
+        {
+            if (have) mcert_free(&c);
+            mcert_make(&c, &N, key);
+            have = 1;
+            if (c.internal)
+            {
+                internal_result(&r, &N, key, -1, -1, c.internal == 1 ? "openssl-could-not-build-certificate" : "same-der-parsed-differently", 0);
+                s_desc(r.desc, sizeof(r.desc), sg, x, -1);
+                if (record) mx_record(&r);
+                if (last) *last = r;
+                have = 0;
+                continue;
+            }
+            nrefused += !c.parsed;
+        }
+        for (ci = 0; ci < NCOMBO; ci++)
+        {
+            int v = 0, def = 0;
+            int32 rc = 0;
+            if (ci_only >= 0 && ci != ci_only) continue;
+            if (c.parsed)
+            {
+                v = ms_eval(&c, dyn_exp, COMBO[ci].type, COMBO[ci].mflags, 0, &rc);
+                if (v < 0)
+                {
+                    internal_result(&r, &N, key, DYN_EXP, ci, "chain-validation-failed-for-another-reason", rc);
+                    s_desc(r.desc, sizeof(r.desc), sg, x, ci);
+                    if (record) mx_record(&r);
+                    if (last) *last = r;
+                    continue;
+                }
+            }
+            evals++;
+            nacc += v;
+            th = fnv1a(&v, sizeof(v), th);
+            if (judge_a(&N, key, DYN_EXP, ci, c.parsed, v, rc, &r, &def))
+            {
+                char k2[sizeof(r.key)];
+                snprintf(k2, sizeof(k2), "%s", r.key);
+                snprintf(r.key, sizeof(r.key), "%.*s|byte-substituted|%s|%s|%s-name%s", (int) strcspn(k2, "|"), k2, B->tag, sg->pl ? "cn" : "san", sg->dir ? "expected" : "certificate", k2 + strcspn(k2, "|"));
+                s_desc(r.desc, sizeof(r.desc), sg, x, ci);
+                if (record)
+                {
+                    mx_record(&r);
+                    CT_ADD(viol_a, 1);
+                }
+            }
+            else
+            {
+                s_desc(r.desc, sizeof(r.desc), sg, x, ci);
+            }
+            if (def) definite++;
+            if (last && x_only >= 0 && ci_only >= 0) *last = r;
+            if (g_dump) fprintf(stderr, "  x=0x%02x type=%s: MatrixSSL rc=%d => %s; reference => %s\n", x, COMBO[ci].name, (int) rc, !c.parsed ? "no-match (certificate refused)" : v ? "ACCEPT" : "reject",
+                def ? (ref_verdict(&N, dyn_exp, COMBO[ci].type, COMBO[ci].mflags, NULL) ? "ACCEPT" : "reject") : "don't care");
+        }
+    }
+    if (have) mcert_free(&c);
+    if (record)
+    {
+        memset(&r, 0, sizeof(r));
+        s_names(sg, sg->dir ? 1 : 0, &N);
+        snprintf(r.desc, sizeof(r.desc), "S;b=%d;d=%d;pl=%d;i=%d;x=-1;t=-1;m=0 (%s as %s: every value of byte %d of the %s name)", sg->b, sg->dir, sg->pl, sg->pos, B->tag, sg->pl ? "CN" : "SAN", sg->pos, sg->dir ? "expected" : "certificate");
+        snprintf(r.outcome, sizeof(r.outcome), "subst:%s:%s:%s:accepts=%d:refused=%d", B->tag, sg->pl ? "cn" : "san", sg->dir ? "exp" : "cert", nacc, nrefused);
+        r.transitions = (uint32_t) (evals > 0 ? evals : 1);
+        r.nontrivial = definite > 0;
+        r.trace_hash = th;
+        r.state_hash = fnv1a(r.desc, strlen(r.desc), th);
+        mx_record(&r);
+        CT_ADD(certs, sg->dir ? 1 : 256);
+        CT_ADD(certs_refused, nrefused);
+        CT_ADD(evals, evals);
+        CT_ADD(libcalls, evals);
+        CT_ADD(definite, definite);
+        CT_ADD(dontcare, evals - definite);
+        CT_ADD(accepts, nacc);
+        CT_ADD(groups, 1);
+    }
+}
+
+static void enumerate_s(void)
+{
+    int b, d, pl, i;
+    for (b = 0; b < NSB; b++)
+        for (d = 0; d < 2; d++)
+            for (pl = 0; pl < 2; pl++)
+            {
+                int L = d ? (int) strlen(SB[b].exp) : SB[b].certlen;
+                if (pl == 1 && SB[b].kind == K_IP) continue;
+                for (i = 0; i < L && i < 20; i++)
+                {
+                    sgroup_t *sg = &sgroups[nsgroups++];
+                    sg->b = b; sg->dir = d; sg->pl = pl; sg->pos = i;
+                }
+            }
+}
+
 static void group_fn(long gi, void *unused)
 {
     static gres_t G;
@@ -631,6 +803,11 @@ static void group_fn(long gi, void *unused)
     if (gi == 0)
     {
         run_sanity(1, NULL);
+        return;
+    }
+    if (gi > ngroups)
+    {
+        run_sgroup(&sgroups[gi - ngroups - 1], 1, -1, -1, NULL);
         return;
     }
     run_group_core(&groups[gi - 1], &G, 1, -1, -1, -1, NULL);
@@ -696,6 +873,25 @@ static int do_replay(const char *d)
     if (!strncmp(d, "sanity=1", 8))
     {
         run_sanity(0, &r);
+        mx_replay_print(&r);
+        return 0;
+    }
+    if (d[0] == 'S')
+    {
+        sgroup_t sg;
+        int x = -1;
+        if (sscanf(d, "S;b=%d;d=%d;pl=%d;i=%d;x=%d;t=%d;m=%u", &sg.b, &sg.dir, &sg.pl, &sg.pos, &x, &t, &m) != 7 || sg.b < 0 || sg.b >= NSB || sg.pos < 0 || sg.pos >= 20 || x > 255)
+        {
+            fprintf(stderr, "bad descriptor: %s\n", d);
+            return 2;
+        }
+        ci = x >= 0 ? combo_index(t, m) : -1;
+        run_sgroup(&sg, 0, x, ci, &r);
+        if (x < 0)
+        {
+            snprintf(r.desc, sizeof(r.desc), "%s", d);
+            snprintf(r.outcome, sizeof(r.outcome), "group-replayed");
+        }
         mx_replay_print(&r);
         return 0;
     }
@@ -786,7 +982,7 @@ int main(int argc, char **argv)
 {
     mx_cfg_t cfg;
     const char *replay;
-    static char bound[1400], extra[900];
+    static char bound[2400], extra[900];
     int e, rc, core = 0, i;
 
     memset(&cfg, 0, sizeof(cfg));
@@ -851,10 +1047,13 @@ int main(int argc, char **argv)
         "(none, exact, other case, wildcard, other, IP literal, e-mail, embedded NUL), %d expected names, %d (nameType, mFlags) combinations (ANY x {0,ci,cn,cn+ci}, HOSTNAME x {0,cn}, "
         "CN x {0,cn}, SAN_DNS, SAN_EMAIL x {0,ci}, SAN_IP_ADDRESS; cn=ALWAYS_CHECK_SUBJECT_CN, ci=SAN_EMAIL_CASE_INSENSITIVE_LOCAL_PART). RSA-2048 certificates: all SAN lists of "
         "length 0..1 x all CN variants. RSA-1024 certificates: all ordered lists of length 2 x %s; %s. P-256 slice: all lists of length 0..1, no CN, only the 6 combinations with mFlags=0. "
-        "Every certificate x every expected name x every combination evaluated; lists with a repeated entry are not enumerated",
+        "Every certificate x every expected name x every combination evaluated; lists with a repeated entry are not enumerated. "
+        "Part S: for %d matching base pairs (dNSName, dNSName with hyphen/digit/one-letter label, rfc822Name, wildcard dNSName, iPAddress, mixed-case dNSName) every single-byte substitution "
+        "(256 values x every position) of the certificate name - as the only SAN entry of its kind and as the only subject CN - and every substitution (255 values x every position) of the "
+        "expected name, each under all %d combinations",
         NPOOL, NCN, NEXP, NCOMBO,
         thorough ? "all CN variants" : "CN none, plus all ordered lists of length 2 over the core sub-pool (entries flagged core in c05_names.h) x CN www.example.com",
-        thorough ? "all ordered lists of length 3 over the core sub-pool (entries flagged core in c05_names.h) x CN {none, www.example.com}" : "no lists of length 3");
+        thorough ? "all ordered lists of length 3 over the core sub-pool (entries flagged core in c05_names.h) x CN {none, www.example.com}" : "no lists of length 3", NSB, NCOMBO);
     (void) core;
     cfg.bound = bound;
 
@@ -867,8 +1066,9 @@ int main(int argc, char **argv)
     memset(CT, 0, sizeof(*CT));
     for (e = 0; e < NEXP; e++) CT->refused_names += refused[e];
     enumerate();
+    enumerate_s();
     mx_init(&cfg);
-    mx_parallel(ngroups + 1, group_fn, NULL);
+    mx_parallel(ngroups + 1 + nsgroups, group_fn, NULL);
     snprintf(extra, sizeof(extra),
         "\"c05\": {\"groups\": %ld, \"groups_completed\": %ld, \"certificates\": %ld, \"certificates_refused_by_parser\": %ld, \"evaluations\": %ld, \"matrixValidateCertsExt_calls\": %ld, \"definite_comparisons\": %ld, "
         "\"dont_care\": %ld, \"accept_verdicts\": %ld, \"violating_evaluations_oracle_a\": %ld, \"violating_multiset_cases_oracle_b\": %ld, \"pool\": %d, \"core_pool\": %d, "
